@@ -105,3 +105,20 @@ Lemma f8_v5_refuted :
   /\ cleaned step5 (run5 (init5 1 false) [p5 Q1 1; p5 Q1 2])
      = Some [R5Publish (mkPub5 Q1 1 1 1 None); R5Publish (mkPub5 Q1 1 2 2 None)].
 Proof. vm_compute. split; reflexivity. Qed.
+
+(** F37: a CONNACK announcing receive-maximum 0 was taken as an inflight limit of zero: the
+    allocator never wrapped again — SUBSCRIBE ids ran past the configured limit 2 and every QoS>0
+    publish was refused as unsolicited.  Now (fix: commit b2fc5b9) the CONNACK is refused and the
+    allocator keeps cycling in 1..2. *)
+Definition f37 : list op5 :=
+  [Inc5 (P5ConnAck true 0 (Some 0) None); Out5 (R5Subscribe 1); Out5 (R5Subscribe 1)].
+Lemma f37_refuted :
+  (exists s s1 s2, run5_orig (init5 2 false) f37 = Some s /\ s5_max s = 0 /\
+     Orig.step5 s (Out5 (R5Subscribe 1)) = Ok (s1, Wrote5 (Some (P5Subscribe 3 1))) /\
+     Orig.step5 s1 (p5 Q1 1) = Err (s2, E5Unsolicited 4))
+  /\ (exists s s1 s2, run5 (init5 2 false) f37 = Some s /\ s5_max s = 2 /\
+     step5 s (Out5 (R5Subscribe 1)) = Ok (s1, Wrote5 (Some (P5Subscribe 1 1))) /\
+     step5 s1 (p5 Q1 1) = Ok (s2, Wrote5 (Some (P5Publish (mkPub5 Q1 2 1 1 None)))))
+  /\ (exists s', step5 (init5 2 false) (Inc5 (P5ConnAck true 0 (Some 0) None)) = Err (s', E5ConnFail 130) /\
+     s5_max s' = 2 /\ s5_last_pkid s' = 0).
+Proof. split; [|split]; repeat eexists; vm_compute; reflexivity. Qed.
